@@ -25,9 +25,20 @@ def bind_repo():
     return repo
 
 
+def _op_label(o):
+    lab = o['op']
+    f = o.get('fault')
+    if f:
+        lab += '!' + f['kind']
+    pol = (o.get('args') or {}).get('policy') if isinstance(o.get('args'), dict) else None
+    if pol:
+        lab += '!' + pol['kind']
+    return lab
+
+
 def _seq_digest(ops):
     import hashlib
-    return hashlib.sha256('|'.join(o['op'] for o in ops).encode()).hexdigest()[:14]
+    return hashlib.sha256('|'.join(_op_label(o) for o in ops).encode()).hexdigest()[:14]
 
 
 def batch(args):
@@ -70,8 +81,8 @@ def batch(args):
         if ctx.clock is not None:
             out['sim_time_s'] += ctx.clock.elapsed()
             out['clock_jumps'] += ctx.clock.jumps
-        names = [o['op'] for o in res.ops]
-        n_change = sum(1 for o in names if o in state_changing)
+        names = [_op_label(o) for o in res.ops]
+        n_change = sum(1 for o in res.ops if o['op'] in state_changing)
         if n_change >= 3:
             seqs.add(_seq_digest(res.ops))
         for a, b, c in zip(names, names[1:], names[2:]):
@@ -113,7 +124,7 @@ def batch(args):
             }
             os.makedirs(args['out_dir'], exist_ok=True)
             with open(path, 'w') as f:
-                json.dump(doc, f, indent=1, sort_keys=True)
+                json.dump(doc, f, indent=1)      # no sort_keys: dictionary order inside ops is part of the input
             out['violation'] = {'run_seed': run_seed, 'replay': path,
                                 'invariant': doc['invariant'],
                                 'message': doc['expect']['message'],
